@@ -39,6 +39,13 @@ impl<'a> SendBlocksProofProcess<'a> {
 
     pub(crate) fn execute(self) -> Status {
         let status = self.execute_internally();
+        if !status.is_ok() {
+            // Nothing of a rejected response is used and its sender is about to be removed with
+            // an empty request slot: the fetches of the request have to be sent again.
+            self.protocol
+                .peers()
+                .mark_fetching_headers_timeout(self.peer_index);
+        }
         self.protocol
             .peers()
             .update_blocks_proof_request(self.peer_index, None, false);
